@@ -326,7 +326,7 @@ def inline_site_lines(kind, call, k, mod, variant, ctx, cx, hostvar=False, argva
             parts[0] = (parts[0].split("=")[0] + "=" + hv[0]) if (not call["pos"]) else hv[0]
             atext = ", ".join(parts)
     if kind == "function":
-        target = "m.f" if (mod == 2 and variant == 1) else "f"
+        target = "m.f" if (mod != 1 and variant == 1) else "f"
         expr = "%s(%s)" % (target, atext)
     elif kind == "method":
         expr = "obj.f(%s)" % atext
@@ -342,6 +342,9 @@ def inline_site_lines(kind, call, k, mod, variant, ctx, cx, hostvar=False, argva
         out += ["r%d = %s" % (k, expr), "print('r', r%d)" % k]
     elif ctx == "suffix":
         out.append("%s or print('r', 'none')" % expr)
+    elif ctx == "cont":
+        # the call on a continuation line of a multi-line statement
+        out += ["print('r',", "      %s)" % expr]
     else:
         out.append("print('r', %s)" % expr)
     if hv:
@@ -349,9 +352,14 @@ def inline_site_lines(kind, call, k, mod, variant, ctx, cx, hostvar=False, argva
     return out
 
 
+MODFILE = {1: "m.py", 2: "n.py", 3: "n2.py"}
+INLINE_ENTRY = "main.py"
+
+
 def render_inline_program(kind, sig, sites, dims):
-    """dims: {"ctx": [per site], "variant": [per site], "ret": bool, "imp": bool, "use", "cx"}
-    Returns files; entry module is n.py (imports m, so m's sites run first)."""
+    """dims: {"ctx": [per site], "variant": [per site], "ret": bool, "imp": bool, "use", "cx", ...}
+    Modules: m.py (definition + its sites), n.py and - if a site is there - n2.py (importers);
+    entry main.py imports them in this order."""
     scopes = dims.get("scopes", False)     # every site in a scope of its own (spec fields h / dup)
     body = inline_body(kind, sig, dims["use"], dims["ret"], dims["imp"], dims.get("tmp", False) or scopes)
     host = dims.get("host", False) and not scopes
@@ -371,41 +379,41 @@ def render_inline_program(kind, sig, sites, dims):
     m += "\n\n"
     if kind != "function":
         m += "obj = C()\n"
-    n = "import m\n"
-    uses_from = any(s["m"] == 2 and not (kind == "function" and dims["variant"][k] == 1)
-                    for k, s in enumerate(sites))
-    if kind == "function":
-        if uses_from:
-            n += "from m import f\n"
-    else:
-        n += "from m import C\n"
-        n += "obj = C()\n"
+    mods = [1, 2] + ([3] if any(s["m"] == 3 for s in sites) else [])
+    text = {1: m}
+    for mod in mods[1:]:
+        n = "import m\n"
+        uses_from = any(s["m"] == mod and not (kind == "function" and dims["variant"][k] == 1)
+                        for k, s in enumerate(sites))
+        if kind == "function":
+            if uses_from:
+                n += "from m import f\n"
+        else:
+            n += "from m import C\n"
+            n += "obj = C()\n"
+        text[mod] = n
     ind = "    " if host else ""
     if host:
-        if any(s["m"] == 1 for s in sites):
-            m += "def g1():\n"
-        if any(s["m"] == 2 for s in sites):
-            n += "def g2():\n"
+        for mod in mods:
+            if any(s["m"] == mod for s in sites):
+                text[mod] += "def g%d():\n" % mod
     for k, s in enumerate(sites):
         if scopes:
             vb = 0 if s.get("dup") else k
             lines = inline_site_lines(kind, s["c"], k, s["m"], dims["variant"][k], dims["ctx"][k], dims["cx"],
                                       vb=vb, hostval=dims["hostval"][k])
-            text = "def g%d():\n" % k + "".join("    " + l + "\n" for l in lines) + "\n\ng%d()\n" % k
+            t = "def g%d():\n" % k + "".join("    " + l + "\n" for l in lines) + "\n\ng%d()\n" % k
         else:
             lines = inline_site_lines(kind, s["c"], k, s["m"], dims["variant"][k], dims["ctx"][k], dims["cx"],
                                       hostvar, argvar)
-            text = "".join(ind + l + "\n" for l in lines)
-        if s["m"] == 1:
-            m += text
-        else:
-            n += text
+            t = "".join(ind + l + "\n" for l in lines)
+        text[s["m"]] += t
     if host:
-        if any(s["m"] == 1 for s in sites):
-            m += "\n\ng1()\n"
-        if any(s["m"] == 2 for s in sites):
-            n += "\n\ng2()\n"
-    files = {"m.py": m, "n.py": n}
+        for mod in mods:
+            if any(s["m"] == mod for s in sites):
+                text[mod] += "\n\ng%d()\n" % mod
+    files = {MODFILE[mod]: text[mod] for mod in mods}
+    files[INLINE_ENTRY] = "".join("import %s\n" % MODFILE[mod][:-3] for mod in mods)
     if dims["imp"]:
         files["h.py"] = "T = 5\n"
     return files
